@@ -4,3 +4,4 @@ import Thanos.Props.C15
 import Thanos.Props.C08
 import Thanos.Props.C09
 import Thanos.Props.C07
+import Thanos.Props.C10
